@@ -50,8 +50,12 @@ def correspond(ctx, scale):
     def fail(key, what, case):
         failures.append({'key': key, 'what': what, 'case': case})
 
+    shape_counter = [0]
+
     def shapes(layout, dim, rng):
-        b, n = rng.choice([(1, 1), (2, 3), (2, 5)])
+        # cycled, not sampled: every module meets the extents 1, 2, 3 and 5 (a last spatial extent EQUAL to its number of layers / heads included)
+        shape_counter[0] += 1
+        b, n = [(2, 3), (1, 1), (2, 5), (2, 2), (1, 3), (2, 4)][shape_counter[0] % 6]
         return {'seq': (b, n, dim), 'cfirst': (b, dim, n), 'image': (b, dim, 2, n), 'video': (b, dim, 2, 2, n)}[layout]
 
     reps = (2 if not ctx.thorough else 10) * scale
@@ -176,10 +180,29 @@ def correspond(ctx, scale):
                     if dec.shape != out.shape and layout in ('image', 'video', 'cfirst'):
                         want = out.movedim(1, -1)      # decoders return the feature axis last
                     ok, why = close(dec, want, exact_eval and mode == 'eval')
+                    if not ok and dec.shape == out.shape and layout in ('image', 'video', 'cfirst'):
+                        # square extents: the shapes cannot tell whether the decoder returned the feature axis last (its documented layout) - accept that reading
+                        ok, why = close(dec, out.movedim(1, -1), exact_eval and mode == 'eval')
                     nt += 1
                     if not ok:
                         fail(key + ':mismatch', f'{name} ({layout}, {mode}): decode(indices) != output: {why}', dict(name=name, layout=layout, mode=mode))
                         continue
+                    # channel-first ResidualFSQ returns indices as 'b q ...': a coarse prefix idx[:, :k] decodes to the partial sum of the first k layers' codes -
+                    # whatever the spatial extents are (a last extent equal to the number of layers included)
+                    if name == 'rfsq' and layout in ('cfirst', 'image') and mode == 'eval':
+                        try:
+                            with torch.no_grad():
+                                codes_all = q.get_codes_from_indices(idx)              # (q, b, ..., d), feature axis last
+                                for k_ in range(1, idx.shape[1]):
+                                    dec_k = q.get_output_from_indices(idx[:, :k_])
+                                    want_k = q.project_out(codes_all[:k_].sum(dim=0))
+                                    bump('rfsq-cfirst-prefix')
+                                    if dec_k.shape != want_k.shape or not torch.allclose(dec_k, want_k, atol=1e-5):
+                                        fail(f'{name}:layout={layout}:prefix-decode', f'{name} ({layout}, extents {tuple(x.shape)}): the {k_}-layer prefix of the indices decodes to shape {tuple(dec_k.shape)} '
+                                             f'(partial sum: {tuple(want_k.shape)})' + ('' if dec_k.shape != want_k.shape else f', max abs diff {float((dec_k - want_k).abs().max()):g}'), dict(name=name, layout=layout, k=k_))
+                                        break
+                        except Exception as ex:
+                            fail(f'{name}:layout={layout}:prefix-decode:exception:{type(ex).__name__}', repr(ex)[:200], dict(name=name, layout=layout))
                     # every coarse prefix decodes to the partial sum of the per-layer codes (sequence layout, ungrouped)
                     if layout == 'seq' and prefix_ok and not name.startswith('g') and mode == 'eval':
                         try:
